@@ -463,6 +463,10 @@ pub fn c02(ctx: &Ctx) -> Report {
         Tier::Thorough => &ALL_DECOS,
     };
     let mut wires = small_wires(max_len, decos, false);
+    if tier == Tier::Quick {
+        // size lines with more hex digits than a 64-bit number has (thorough: all decorations anyway)
+        wires.extend(small_wires(2, &[Deco::ManyZeros], false).into_iter().filter(|w| w.framing == Framing::Chunked));
+    }
     // one wire through the 64 KiB refill path
     wires.push(WireSpec {
         framing: Framing::Chunked,
